@@ -155,7 +155,8 @@ def handle : List String → String
   | "loopcomb" :: fx :: ports =>
       -- reading protocol of LoopCombinatorStep on the real port streams, round-robin schedule until nothing can move
       let parseTok (w : String) : Option LoopComb.Tok :=
-        if w = "T1" then some (.term true) else if w = "T0" then some (.term false)
+        if w = "T1" then some (.term .completed) else if w = "T0" then some (.term .failed)
+        else if w = "T2" then some (.term .skipped)
         else if w.startsWith "d" then (parseTag (w.drop 1).toString).map LoopComb.Tok.data
         else if w.startsWith "i" then (parseTag (w.drop 1).toString).map LoopComb.Tok.iterTerm
         else none
